@@ -80,6 +80,8 @@ type Slicer struct {
 	// Through: calls whose result is treated as derived from the given argument
 	// indexes (pure wrappers such as utils.IdPtr); receiver is index -1.
 	Through func(c *ssa.Call) []int
+	// Arith: follow both operands of arithmetic BinOps instead of stopping at them.
+	Arith bool
 }
 
 // Leaves returns the origins of v.
@@ -350,6 +352,11 @@ func (s *Slicer) walk(v ssa.Value, via []string, depth int, seen map[string]bool
 	case *ssa.Global:
 		leaf("global")
 	case *ssa.BinOp:
+		if s.Arith {
+			s.walk(x.X, via, depth, seen, out, n+1)
+			s.walk(x.Y, via, depth, seen, out, n+1)
+			return
+		}
 		leaf("binop")
 	default:
 		leaf("other")
